@@ -667,6 +667,22 @@ def sum_new(ex, args, st):
         if ex.feasible(st.pc, z3.UGT(n, bv(ex.new_cap))): raise EngineError('operator new size may exceed modelled capacity')
     yield Outcome('ret', bv(o.base), st)
 SUMMARIES['@_Znwm'] = sum_new
+# function-local statics with dynamic initialisation: the guard is a mutable global of the module (its load and the store of
+# the release are logged like any other access, which is what the C18 audit reports); the registered destructor is ignored
+def sum_guard_acquire(ex, args, st):
+    (st1, b), = ex.load(st, args[0], 1)
+    for cond, val in ((b == bv(0, 8), 1), (b != bv(0, 8), 0)):
+        c = z3.simplify(cond)
+        if z3.is_false(c): continue
+        if z3.is_true(c) or ex.feasible(st1.pc, c):
+            st2 = st1.clone()
+            if not z3.is_true(c): st2.pc.append(c)
+            yield Outcome('ret', bv(val, 32), st2)
+def sum_guard_release(ex, args, st):
+    st, = ex.store(st, args[0], bv(1, 8), 1)
+    yield Outcome('ret', None, st)
+def sum_atexit(ex, args, st): yield Outcome('ret', bv(0, 32), st)
+SUMMARIES.update({'@__cxa_guard_acquire': sum_guard_acquire, '@__cxa_guard_release': sum_guard_release, '@__cxa_guard_abort': sum_noop, '@__cxa_atexit': sum_atexit})
 def sum_throw_len(ex, args, st): yield Outcome('throw', ('std::length_error', None), st)
 SUMMARIES['@_ZSt20__throw_length_errorPKc'] = sum_throw_len
 def sum_memmove(ex, args, st):
